@@ -375,6 +375,32 @@ func oracleC16(s *Sim) {
 			}
 			v.fail("C16", clause+"|"+map[bool]string{true: "unary", false: "stream"}[unary], "interceptor/handler event log is [%s], expected [%s] (transport interceptor first, then decorating layers outermost first, then the handler)", gs, ws)
 		}
+		// requests, responses and errors pass through unchanged: with
+		// pass-through layers only (and nothing disturbing the call) the caller
+		// gets the handler's response and status, and every layer sees the same
+		// on its way out
+		allPass := true
+		for _, l := range chain {
+			if l.mode != 0 {
+				allPass = false
+			}
+		}
+		if allPass && len(chain) > 0 && r.Transport != TGRPC && v.hReturn != nil && v.terminal != nil && v.hReturn.Seq < v.terminal.RSeq && !v.disturbedBefore(v.terminal.RSeq) && !v.clientSideFailure() && v.wireLimit() == "" {
+			if !(v.single && (v.responsesProduced() != 1 || len(v.hSend) != 1)) {
+				exp := expectedFrom(v.hReturn.Err)
+				if good, what := exp.matches(v.terminal.Err); !good {
+					v.fail("C16", "result-altered|status-"+what, "with pass-through interceptors only, the handler returned %s but the caller got %s", v.hReturn.Err, v.terminal.Err)
+				}
+				if unary && v.invoke != nil && v.invoke.Err.IsNil() && len(v.hSend) == 1 && !msgEqual(v.invoke.GotMsg, v.hSend[0].Msg) {
+					v.fail("C16", "result-altered|response", "with pass-through interceptors only, the caller's response %s is not the handler's (tag %d)", v.invoke.Got, tagOf(v.hSend[0].Msg))
+				}
+			}
+			for _, ev := range v.ev {
+				if ev.Op == "int-exit" && ev.Err != nil && ev.Err.String() != v.hReturn.Err.String() && v.hReturn.Err.Class != "panic" {
+					v.fail("C16", "error-altered-between-layers", "interceptor %s saw the result %s on the way out, the handler returned %s", ev.Note, ev.Err, v.hReturn.Err)
+				}
+			}
+		}
 		for _, ev := range got {
 			if ev.Flags["method"] != "/"+r.Svc+"/"+r.Meth {
 				v.fail("C16", "full-method", "interceptor %s was told method %q, expected %q", ev.Note, ev.Flags["method"], "/"+r.Svc+"/"+r.Meth)
@@ -525,8 +551,19 @@ func oracleC17(s *Sim) {
 				}
 			}
 		}
-		// results pass through: with pass-through layers only, the call behaves as without them
-		// (the standard oracles C01/C02 run on the same history)
+		// results pass through: with layers that call onward, the caller gets
+		// what the wrapped channel gave (judged like C02 on the same history)
+		if reach && len(exps) > 0 && v.hReturn != nil && v.terminal != nil && v.hReturn.Seq < v.terminal.RSeq && !v.disturbedBefore(v.terminal.RSeq) && !v.clientSideFailure() && v.wireLimit() == "" && r.Transport != TGRPC {
+			if !(v.single && (v.responsesProduced() != 1 || len(v.hSend) != 1)) {
+				exp := expectedFrom(v.hReturn.Err)
+				if good, what := exp.matches(v.terminal.Err); !good {
+					v.fail("C17", "result-altered|status-"+what, "through %d client interceptor layer(s) the handler's %s reached the caller as %s", len(exps), v.hReturn.Err, v.terminal.Err)
+				}
+				if unary && v.invoke != nil && v.invoke.Err.IsNil() && len(v.hSend) == 1 && !msgEqual(v.invoke.GotMsg, v.hSend[0].Msg) {
+					v.fail("C17", "result-altered|response", "through %d client interceptor layer(s) the caller's response %s is not the handler's (tag %d)", len(exps), v.invoke.Got, tagOf(v.hSend[0].Msg))
+				}
+			}
+		}
 	}
 }
 
